@@ -374,6 +374,40 @@ def add_name_routing(run, twin=None):
     core.explore(body, on_path)
 
 
+@harness(['C05', 'C01'], 'supp.scope.Flow.mark_local')
+def mark_local_routing(run):
+    """a statement that makes an identifier a variable of the scope without binding an object (x += 1, del x, x: T): the identifier becomes a
+    local iff it is declared neither global nor nonlocal there (RI_locals, the same rule as add_name) - a name declared nonlocal keeps resolving
+    to the enclosing function, one declared global to the module; nothing else changes"""
+    run.concretise = scope_witness
+    fl = Flags()
+    f = loader.load('supp.scope', 'Flow.mark_local')
+
+    def body():
+        assume(z3.Not(z3.And(fl.glob, fl.nonloc)))
+
+        class Sc(object):
+            locals = SymSet(z3.BoolVal(False), 'locals')
+            globals = SymSet(fl.glob, 'globals')
+            nonlocals = SymSet(fl.nonloc, 'nonlocals')
+
+        class Self(object):
+            scope = Sc()
+            _names = ['the region list']
+        f(Self(), KEY)
+        return Self, Sc
+
+    def on_path(p, out):
+        if out[0] != 'ok':
+            prove('no-exception(%s)' % type(out[1]).__name__, False, path=p)
+            return
+        Self, Sc = out[1]
+        prove('local-iff-neither-global-nor-nonlocal', z3.BoolVal(KEY in Sc.locals.added) == z3.And(z3.Not(fl.glob), z3.Not(fl.nonloc)),
+              clause='RI_locals: scope.locals == identifiers bound in the scope and declared neither global nor nonlocal', path=p)
+        prove('nothing-else-touched', Self._names == ['the region list'] and not Sc.globals.added and not Sc.nonlocals.added, path=p)
+    core.explore(body, on_path)
+
+
 @harness(['C05'], 'supp.scope.{FuncScope,ClassScope,SourceScope}.names')
 def scope_names(run):
     """FuncScope.names == the table at the end of the function's current region; ClassScope.names == the enclosing scope's names
